@@ -597,9 +597,31 @@ def run(case, res):
         for k, sc in enumerate(case['scheds'][:4]):
             common.install_hash_seam(sc['hash_seed'])
             common.reset_world()
+            implicit = False
+            if k == 1:
+                # a script: the user tries to switch to a malformed block (refused), carries on
+                # in the working block he had, and never names a block
+                implicit = True
+                badb = pyrtl.Block()
+                pyrtl.WireVector(2, 'dangling', block=badb)
+                home = pyrtl.working_block()
+                for form in ('call', 'with'):
+                    try:
+                        if form == 'call':
+                            pyrtl.set_working_block(badb)
+                        else:
+                            with pyrtl.set_working_block(badb):
+                                pass
+                    except (pyrtl.PyrtlError, pyrtl.PyrtlInternalError):
+                        res.faults.hit('switch_to_malformed_block_refused')
+                if pyrtl.working_block() is not home:
+                    res.probes.hit('working_block_moved_by_refused_switch')
             try:
-                ab = c17.build(case['api_prog'])
+                ab = c17.build(case['api_prog'], implicit=implicit)
             except (pyrtl.PyrtlError, pyrtl.PyrtlInternalError) as e:
+                if implicit:
+                    return Violation('valid_design', 'api_construction_refused_after_refused_switch',
+                                     {'exc': repr(e)[:300]}, ['positive', 'api', 'implicit_block'])
                 raise HarnessError('api program does not build: %r' % (e,))
             common.iter_seam.install(sc['iter_policy'], sc['iter_seed'])
             try:
@@ -664,6 +686,9 @@ def run(case, res):
             # check, then mutate, then check: the block has already passed once
             bb.block.sanity_check()
             res.probes.hit('fault_after_passing_check')
+        blk0 = bb.block
+        snap = (set(blk0.logic), set(blk0.wirevector_set), dict(blk0.wirevector_by_name),
+                {id(w): (w.name, w.bitwidth, getattr(w, '_block', None)) for w in blk0.wirevector_set})
         want = inject(bb, script, site, rng)
         if want is None:
             res.probes.hit('site_not_applicable')
@@ -691,6 +716,32 @@ def run(case, res):
             if site['cls'] == 'op_param':
                 tags.append('how:' + site['how'])
             return Violation('reject_malformed', verdict[1], d, tags)
+        # ---- the user repairs the same Block in place (the injected nets / wires are taken out
+        # again) and asks again: what the refusals left behind must not make a good design fail
+        if si % 3 == 0 and bb.block is blk0 and all(
+                (w.name, w.bitwidth, getattr(w, '_block', None)) == snap[3].get(id(w))
+                for w in snap[1]):
+            blk0.logic.clear()
+            blk0.logic.update(snap[0])
+            blk0.wirevector_set.clear()
+            blk0.wirevector_set.update(snap[1])
+            blk0.wirevector_by_name.clear()
+            blk0.wirevector_by_name.update(snap[2])
+            if not validate(blk0):
+                try:
+                    with transforms.quiet():
+                        blk0.sanity_check()
+                        for _n in blk0:
+                            pass
+                        pyrtl.Simulation(tracer=pyrtl.SimulationTrace('all', block=blk0), block=blk0)
+                        pyrtl.FastSimulation(tracer=pyrtl.SimulationTrace('all', block=blk0), block=blk0)
+                except (pyrtl.PyrtlError, pyrtl.PyrtlInternalError) as e:
+                    return Violation('valid_design', 'repaired_block_rejected',
+                                     {'exc': repr(e)[:300], 'site': site},
+                                     ['fault:' + cls, 'repaired_in_place'])
+                res.faults.hit('repaired_in_place_and_accepted')
+            else:
+                res.probes.hit('repair_not_clean')
     res.shape = hashlib.sha1(script_shape(script).encode()).hexdigest()[:12]
     res.sched = hashlib.sha1(repr(sorted(orders)[:50]).encode()).hexdigest()[:12]
     res.nontrivial = len(judged) > 0
